@@ -56,11 +56,15 @@ Section Progress.
     let st' := step st e in
     (* nothing moves (ignored event, or the gathered batch starts running) *)
     (same_log st st' /\ batch_of st' = batch_of st /\ queue st' = queue st /\ blocked st' = blocked st) \/
-    (* a request is appended to the last non-empty part *)
+    (* a request is appended to the queue, or to the blocked putters when the queue is full *)
     (same_log st st' /\ exists r, pending st' = pending st ++ [r] /\
        length (batch_of st) <= length (batch_of st') /\
        length (batch_of st) + length (queue st) <= length (batch_of st') + length (queue st') /\
        (blocked st <> [] -> batch_of st' = batch_of st /\ queue st' = queue st))%nat \/
+    (* the woken worker drains the queue into its batch; woken putters re-fill the queue *)
+    (same_log st st' /\ batch_of st' = batch_of st ++ queue st /\
+       queue st' = firstn (length (queue st)) (blocked st) /\
+       blocked st' = skipn (length (queue st)) (blocked st)) \/
     (* a model call completes *)
     (exists b, wk st = Running b /\ b <> [] /\
        answers st' = answers st ++ combine b (run_model (map rpos b)) /\ completed st' = S (completed st) /\
@@ -71,43 +75,39 @@ Section Progress.
     intros I st'. subst st'.
     pose proof (inv_cap _ _ _ I) as Hc. pose proof (inv_wk _ _ _ I) as Hw. pose proof (inv_blocked _ _ _ I) as Hb.
     pose proof cap_pos as Hcp.
-    destruct e as [r t|t|t]; cbn [Server.step].
+    destruct e as [r t|t|t|t]; cbn [Server.step].
     - (* Arrive *)
       right; left.
       destruct (qlen (queue st) <? cap) eqn:E.
       + apply Z.ltb_lt in E.
         assert (Hbn : blocked st = []) by (eapply blocked_nil_of_short; eassumption).
-        destruct (wk st) as [|b d|b] eqn:Ew.
-        * unfold wk_ok in Hw; rewrite Ew in Hw. destruct Hw as [Hq0 _].
-          match goal with |- context [resume ?s t] => set (s0 := s) end.
-          assert (Hq : queue s0 <> []) by (subst s0; cbn [queue]; rewrite Hq0; discriminate).
-          assert (Hc0 : qlen (queue s0) <= cap) by (subst s0; cbn [queue]; rewrite Hq0; cbn; lia).
-          assert (Hw0 : forall b, wk s0 <> Running b) by (intro b; subst s0; cbn [wk]; discriminate).
-          destruct (resume_shape s0 t Hq Hc0 Hw0) as (S1 & S2 & S3 & S4 & S5).
-          split; [split; [rewrite S4|rewrite S5]; reflexivity|]. exists r.
-          unfold pending. rewrite S1, S2, S3. subst s0. unfold batch_of. cbn [queue blocked wk]. rewrite Ew, Hq0, Hbn.
-          cbn [app length firstn skipn]. rewrite ?firstn_nil, ?skipn_nil. repeat split; try (cbn; lia); try (intros; exfalso; congruence).
-        * unfold wk_ok in Hw; rewrite Ew in Hw. destruct Hw as (Hq0 & _ & Hbne & Hlt).
-          match goal with |- context [resume ?s t] => set (s0 := s) end.
-          assert (Hq : queue s0 <> []) by (subst s0; cbn [queue]; rewrite Hq0; discriminate).
-          assert (Hc0 : qlen (queue s0) <= cap) by (subst s0; cbn [queue]; rewrite Hq0; cbn; lia).
-          assert (Hw0 : forall b', wk s0 <> Running b') by (intro b'; subst s0; cbn [wk]; discriminate).
-          destruct (resume_shape s0 t Hq Hc0 Hw0) as (S1 & S2 & S3 & S4 & S5).
-          split; [split; [rewrite S4|rewrite S5]; reflexivity|]. exists r.
-          unfold pending. rewrite S1, S2, S3. subst s0. unfold batch_of. cbn [queue blocked wk]. rewrite Ew, Hq0, Hbn.
-          cbn [app length firstn skipn]. rewrite ?firstn_nil, ?skipn_nil, ?app_nil_r.
-          repeat split; try (rewrite app_length; cbn; lia); try (intros; exfalso; congruence).
-        * rewrite (resume_running A _ t b) by reflexivity.
-          split; [split; reflexivity|]. exists r. unfold pending, batch_of. cbn [queue blocked wk]. rewrite Ew, Hbn, !app_nil_r.
-          rewrite app_assoc. repeat split; try (rewrite ?app_length; cbn; lia); try (intros; exfalso; congruence).
+        split; [split; reflexivity|]. exists r. unfold pending, batch_of. cbn [queue blocked wk]. rewrite Hbn, !app_nil_r.
+        rewrite app_assoc. repeat split; try (rewrite ?app_length; cbn; lia); try (intros; exfalso; congruence).
       + split; [split; reflexivity|]. exists r. unfold pending, batch_of. cbn [queue blocked wk].
         rewrite !app_assoc. repeat split; lia.
+    - (* Wake *)
+      destruct (queue st) as [|r q] eqn:Eq.
+      { left. rewrite (resume_nil A st t Eq). rewrite Eq. unfold same_log. repeat split; reflexivity. }
+      destruct (wk st) as [|b d|b] eqn:Ew.
+      + right; right; left.
+        assert (Hq : queue st <> []) by (rewrite Eq; discriminate).
+        assert (Hc0 : qlen (queue st) <= cap) by (rewrite Eq; exact Hc).
+        assert (Hw0 : forall b, wk st <> Running b) by (intro b; rewrite Ew; discriminate).
+        destruct (resume_shape st t Hq Hc0 Hw0) as (S1 & S2 & S3 & S4 & S5).
+        rewrite Eq in *. split; [split; assumption|]. repeat split; assumption.
+      + right; right; left.
+        assert (Hq : queue st <> []) by (rewrite Eq; discriminate).
+        assert (Hc0 : qlen (queue st) <= cap) by (rewrite Eq; exact Hc).
+        assert (Hw0 : forall b', wk st <> Running b') by (intro b'; rewrite Ew; discriminate).
+        destruct (resume_shape st t Hq Hc0 Hw0) as (S1 & S2 & S3 & S4 & S5).
+        rewrite Eq in *. split; [split; assumption|]. repeat split; assumption.
+      + left. rewrite (resume_running A st t b Ew). rewrite Eq. unfold same_log. repeat split; reflexivity.
     - (* Timer *)
       left. destruct (wk st) as [|b d|b] eqn:Ew; try (unfold same_log, batch_of; rewrite Ew; repeat split; reflexivity).
       destruct (d <=? t); unfold same_log, batch_of; cbn [wk queue blocked answers completed]; rewrite ?Ew; repeat split; reflexivity.
     - (* ModelDone *)
       destruct (wk st) as [|b d|b] eqn:Ew; try (left; unfold same_log, batch_of; rewrite Ew; repeat split; reflexivity).
-      right; right. exists b. unfold wk_ok in Hw; rewrite Ew in Hw. split; [reflexivity|]. split; [exact Hw|].
+      right; right; right. exists b. unfold wk_ok in Hw; rewrite Ew in Hw. split; [reflexivity|]. split; [exact Hw|].
       match goal with |- context [resume ?s t] => set (s0 := s) end.
       destruct (queue st) as [|r q] eqn:Eq.
       + assert (Hbn : blocked st = []) by (eapply blocked_nil_of_short; [exact I|rewrite Eq; cbn; lia]).
@@ -138,7 +138,7 @@ Section Progress.
   Proof.
     intros I Hk st' a a'. subst st' a a'.
     pose proof (inv_blocked _ _ _ I) as Hb. pose proof (inv_cap _ _ _ I) as Hc. pose proof capn_pos as Hcp.
-    destruct (step_shape arr st e I) as [((Ha & Hcm) & H1 & H2 & H3)|[((Ha & Hcm) & r & Hp & L1 & L2 & L3)|(b & Ew & Hbne & Ha & Hcm & H1 & H2 & H3)]].
+    destruct (step_shape arr st e I) as [((Ha & Hcm) & H1 & H2 & H3)|[((Ha & Hcm) & r & Hp & L1 & L2 & L3)|[((Ha & Hcm) & H1 & H2 & H3)|(b & Ew & Hbne & Ha & Hcm & H1 & H2 & H3)]]].
     - right. rewrite Ha, Hcm. split; [lia|]. replace (_ + k - _)%nat with k by lia.
       unfold rank. rewrite H1, H2. lia.
     - right. rewrite Ha, Hcm. split; [lia|]. replace (_ + k - _)%nat with k by lia.
@@ -156,6 +156,28 @@ Section Progress.
           assert (E2' : (k <? length (batch_of (step st e)) + length (queue (step st e)))%nat = true) by (apply Nat.ltb_lt; lia).
           rewrite E2'. lia.
       + destruct L3 as [L3a L3b]; [discriminate|]. rewrite L3a, L3b. lia.
+    - (* the worker drains the queue: everybody keeps his index and moves one stage forward *)
+      right. rewrite Ha, Hcm. split; [lia|]. replace (_ + k - _)%nat with k by lia.
+      unfold rank. rewrite H1, H2, app_length, firstn_length. replace (completed st - completed st)%nat with 0%nat by lia.
+      unfold pending in Hk. rewrite !app_length in Hk.
+      destruct (k <? length (batch_of st))%nat eqn:E1.
+      + apply Nat.ltb_lt in E1.
+        assert (E1' : (k <? length (batch_of st) + length (queue st))%nat = true) by (apply Nat.ltb_lt; lia).
+        rewrite E1'. lia.
+      + apply Nat.ltb_ge in E1.
+        destruct (k <? length (batch_of st) + length (queue st))%nat eqn:E2; [lia|].
+        apply Nat.ltb_ge in E2.
+        assert (Hbl : blocked st <> []) by (destruct (blocked st); [cbn in Hk; lia|discriminate]).
+        pose proof (qlen_cap _ (Hb Hbl)) as Hq. rewrite Hq in *.
+        set (j := (k - length (batch_of st) - capn)%nat).
+        assert (Hj : (j < length (blocked st))%nat) by (subst j; lia).
+        destruct (Nat.lt_ge_cases j capn) as [Lj|Lj].
+        * assert (E4 : (k <? length (batch_of st) + capn + Nat.min capn (length (blocked st)))%nat = true) by (apply Nat.ltb_lt; lia).
+          rewrite E4. lia.
+        * assert (E4 : (k <? length (batch_of st) + capn + Nat.min capn (length (blocked st)))%nat = false) by (apply Nat.ltb_ge; lia).
+          rewrite E4. rewrite Nat.min_l by lia.
+          replace (k - (length (batch_of st) + capn) - capn)%nat with (j - capn)%nat by (subst j; lia).
+          pose proof (div_sub_cap j Lj). fold j. lia.
     - (* completion *)
       rewrite Ha, Hcm, app_length, answered_len.
       assert (Hbo : batch_of st = b) by (unfold batch_of; rewrite Ew; reflexivity).
